@@ -166,6 +166,13 @@ theorem OTok_inRange (n : Nat) (t : Tok) (h : OTok T n t) : TokInRange n t := by
 theorem BL_skipSpace (n : Nat) (b : Buf) (h : BL T n b) : BL T n (skipSpace b) := by
   exact BL_sublist T n _ _ (List.dropWhile_sublist _) h
 
+theorem BL_skipSpaceStopLang (n : Nat) (b : Buf) (h : BL T n b) : BL T n (skipSpaceStopLang b) := by
+  exact BL_sublist T n _ _ (List.dropWhile_sublist _) h
+
+theorem BL_skippedLangs (n : Nat) (b : Buf) (h : BL T n b) : BL T n (skippedLangs b) := by
+  exact BL_sublist T n _ _ ((List.filter_sublist (l := b.takeWhile isSpaceTok)).trans
+    (List.takeWhile_sublist _)) h
+
 theorem BL_filterSetToks (n p : Nat) (ts : List Tok) (hp : p < n) (h : ∀ t ∈ ts, isLang t = true ∧ t.txt = []) :
     BL T n (filterSetToks ts p false) := by
   intro t ht
@@ -387,11 +394,12 @@ theorem DiagsOnly.trans {a b c : PState} (h1 : DiagsOnly a b) (h2 : DiagsOnly b 
   unfold DiagsOnly at *
   rw [h2]; simp only []; rw [h1]
 
-def ArgsOk (n : Nat) (acc : Args) : Prop := (∀ a ∈ acc.args, BL T n a) ∧ (∀ a ∈ acc.extr, BL T n a)
+def ArgsOk (n : Nat) (acc : Args) : Prop :=
+  (∀ a ∈ acc.args, BL T n a) ∧ (∀ a ∈ acc.extr, BL T n a) ∧ BL T n acc.langs
 
 theorem ArgsOk_push (n : Nat) (acc : Args) (a e : List Tok) (h : ArgsOk T n acc) (ha : BL T n a) (he : BL T n e) :
-    ArgsOk T n { args := acc.args ++ [a], extr := acc.extr ++ [e] } := by
-  constructor
+    ArgsOk T n { acc with args := acc.args ++ [a], extr := acc.extr ++ [e] } := by
+  refine ⟨?_, ?_, h.2.2⟩
   · intro x hx
     simp only [List.mem_append, List.mem_cons, List.not_mem_nil, or_false] at hx
     rcases hx with hx | rfl
@@ -400,24 +408,38 @@ theorem ArgsOk_push (n : Nat) (acc : Args) (a e : List Tok) (h : ArgsOk T n acc)
   · intro x hx
     simp only [List.mem_append, List.mem_cons, List.not_mem_nil, or_false] at hx
     rcases hx with hx | rfl
-    · exact h.2 x hx
+    · exact h.2.1 x hx
     · exact he
+
+theorem ArgsOk_langs (n : Nat) (acc : Args) (l : List Tok) (h : ArgsOk T n acc) (hl : BL T n l) :
+    ArgsOk T n { acc with langs := acc.langs ++ l } := by
+  refine ⟨h.1, h.2.1, ?_⟩
+  show BL T n (acc.langs ++ l)
+  rw [BL_append]
+  exact ⟨h.2.2, hl⟩
 
 theorem collectArgs_aux (hw : T.WFInv) (mac : MacroDef) (hm : macroToksOk T mac = true) (n : Nat) :
     ∀ (codes : List Char) (k : Nat) (buf : Buf) (pos : Nat) (acc : Args) (st : PState),
     st.latex.length = n → BL T n buf → pos < n → ArgsOk T n acc →
     Post (collectArgs T mac codes k buf pos acc st) (fun r st' =>
-      (∀ a ∈ r.1.args, BL T n a) ∧ (∀ a ∈ r.1.extr, BL T n a) ∧ BL T n r.2 ∧ DiagsOnly st st') := by
+      (∀ a ∈ r.1.args, BL T n a) ∧ (∀ a ∈ r.1.extr, BL T n a) ∧ BL T n r.2 ∧ DiagsOnly st st' ∧
+      BL T n r.1.langs) := by
   intro codes
   induction codes with
   | nil =>
     intro k buf pos acc st hn hb hp ha
-    exact ⟨ha.1, ha.2, hb, rfl⟩
+    exact ⟨ha.1, ha.2.1, hb, rfl, ha.2.2⟩
   | cons code codes ih =>
-    intro k buf pos acc st hn hb hp ha
+    intro k buf pos acc0 st hn hb hp ha0
     have hsk := BL_skipSpace T n buf hb
+    have ha := ArgsOk_langs T n acc0 _ ha0 (BL_skippedLangs T n buf hb)
     simp only [collectArgs]
     generalize skipSpace buf = b at hsk ⊢
+    generalize hacc : ({ acc0 with langs := acc0.langs ++ skippedLangs buf } : Args) = acc at ha
+    have e1 : acc0.args = acc.args := by rw [← hacc]
+    have e2 : acc0.extr = acc.extr := by rw [← hacc]
+    have e3 : acc0.langs ++ skippedLangs buf = acc.langs := by rw [← hacc]
+    simp only [e1, e2, e3]
     have hvoid : ∀ p, p < n → BL T n [mkVoid p] :=
       fun p hp => BL_single T n _ (OTok_BTok T n _ (OTok_mkVoid T n p hp))
     have hdflt : ∀ p, p < n → BL T n (match mac.defaults[k]? with
@@ -436,9 +458,10 @@ theorem collectArgs_aux (hw : T.WFInv) (mac : MacroDef) (hm : macroToksOk T mac 
     -- the continuation after `argBuffer`
     have hcont : ∀ (eb : Bool) (p : Nat), p < n →
         Post ((argBuffer T.toTables b p eb >>= fun r =>
-          collectArgs T mac codes (k + 1) r.2 p { args := acc.args ++ [r.1], extr := acc.extr ++ [r.1] }) st)
+          collectArgs T mac codes (k + 1) r.2 p
+            { acc with args := acc.args ++ [r.1], extr := acc.extr ++ [r.1] }) st)
           (fun r st' => (∀ a ∈ r.1.args, BL T n a) ∧ (∀ a ∈ r.1.extr, BL T n a) ∧ BL T n r.2 ∧
-            DiagsOnly st st') := by
+            DiagsOnly st st' ∧ BL T n r.1.langs) := by
       intro eb p hp'
       subst hn
       apply Post_bind _ _ _ _ _ (argBuffer_spec T hw b p eb st hsk hp')
@@ -446,8 +469,8 @@ theorem collectArgs_aux (hw : T.WFInv) (mac : MacroDef) (hm : macroToksOk T mac 
       have h4' : DiagsOnly st s := h4
       refine Post_mono _ _ _ (ih (k + 1) r.2 p _ s (by rw [h4'.latex]) h3 hp'
         (ArgsOk_push T _ acc _ _ ha h1 h1)) ?_
-      intro a s' ⟨q1, q2, q3, q4⟩
-      exact ⟨q1, q2, q3, h4'.trans q4⟩
+      intro a s' ⟨q1, q2, q3, q4, q5⟩
+      exact ⟨q1, q2, q3, h4'.trans q4, q5⟩
     have hnil := ArgsOk_push T n acc _ _ ha (Basic_BL_nil T n) (Basic_BL_nil T n)
     cases htok : b.head? with
     | none =>
@@ -481,11 +504,12 @@ theorem collectArgs_aux (hw : T.WFInv) (mac : MacroDef) (hm : macroToksOk T mac 
 theorem collectArgs_spec (hw : T.WFInv) (mac : MacroDef) (codes : List Char) (k : Nat) (buf : Buf) (pos : Nat)
     (acc : Args) (st : PState)
     (hm : macroToksOk T mac = true) (hb : BL T st.latex.length buf) (hp : pos < st.latex.length)
-    (ha : (∀ a ∈ acc.args, BL T st.latex.length a) ∧ (∀ a ∈ acc.extr, BL T st.latex.length a)) :
+    (ha : (∀ a ∈ acc.args, BL T st.latex.length a) ∧ (∀ a ∈ acc.extr, BL T st.latex.length a))
+    (hl : BL T st.latex.length acc.langs) :
     Post (collectArgs T mac codes k buf pos acc st) (fun r st' =>
       (∀ a ∈ r.1.args, BL T st.latex.length a) ∧ (∀ a ∈ r.1.extr, BL T st.latex.length a) ∧
-      BL T st.latex.length r.2 ∧ st' = { st with diags := st'.diags }) := by
-  exact collectArgs_aux T hw mac hm st.latex.length codes k buf pos acc st rfl hb hp ha
+      BL T st.latex.length r.2 ∧ st' = { st with diags := st'.diags } ∧ BL T st.latex.length r.1.langs) := by
+  exact collectArgs_aux T hw mac hm st.latex.length codes k buf pos acc st rfl hb hp ⟨ha.1, ha.2, hl⟩
 
 theorem pyIndex_mem {α} (xs : List α) (k : Nat) (a : α) (h : pyIndex xs k = some a) : a ∈ xs := by
   unfold pyIndex at h
@@ -980,15 +1004,19 @@ theorem G2_err (T' : Tables) (start : Nat) (e : Str) (p n k : Nat) (d : Option D
   G2_simple _ _ (by show scanKind (_ : Tok).kind = true; rw [errTok_kind]; rfl)
     (by show ¬ (_ : Tok).kind = _; rw [errTok_kind]; simp)
 
+theorem G2_err' (T' : Tables) (start : Nat) (e : Str) (p n k : Nat) (d : Option Diag) (x : List Tok) :
+    G2 start { tok := (latexErrorToks T' e p n).headD default, len := k, diag := d, extra := x } :=
+  G2_err T' start e p n k d
+
 theorem scanVerb_G2 (T' : Tables) (src : Str) (start : Nat) (rest : Str) : G2 start (scanVerb T' src start rest) := by
   unfold scanVerb
   simp only []
   split
-  · exact G2_err ..
+  · exact G2_err' ..
   · split
-    · exact G2_err ..
+    · exact G2_err' ..
     · split
-      · exact G2_err ..
+      · exact G2_err' ..
       · exact G2_simple _ _ rfl (by simp)
 
 theorem scanVerbatim_G2 (T' : Tables) (src : Str) (start : Nat) (rest : Str) :
@@ -998,7 +1026,7 @@ theorem scanVerbatim_G2 (T' : Tables) (src : Str) (start : Nat) (rest : Str) :
   split
   · exact G2_simple _ _ rfl (by simp)
   · split
-    · exact G2_err ..
+    · exact G2_err' ..
     · refine ⟨rfl, fun _ => ?_⟩
       simp only [List.length_take]
       omega
@@ -1044,7 +1072,17 @@ theorem nextToken_G2 (T' : Tables) (src : Str) (start : Nat) (rest : Str) : G2 s
 /-- every scanner token is a buffer token of the scanned text -/
 theorem scan_BL (hw : T.WFInv) (src : Str) : BL T src.length (scan T.toTables src).toks := by
   intro t ht
-  obtain ⟨p, r, hr, hd, hl, rfl⟩ := ScannerAux.scan_steps T.toTables hw.scan src t ht
+  obtain ⟨p, r, hr, hd, hl, rfl | hx⟩ := ScannerAux.scan_steps T.toTables hw.scan src t ht
+  rotate_left
+  · have hrl : 1 ≤ r.length := by
+      cases r with
+      | nil => exact absurd rfl hr
+      | cons => simp
+    obtain ⟨a, b, c⟩ := (ScannerAux.nextToken_good T.toTables hw.scan src p r hr).ext t hx
+    have hk : scanKind t.kind = true := by rw [b]; rfl
+    refine ⟨⟨c (by omega), fun hf => ?_, scanKind_ctlEmpty _ hk, scanKind_mbOk T _ hk⟩,
+      scanKind_notMath _ hk⟩
+    rw [a] at hf; cases hf
   have hg := ScannerAux.nextToken_good T.toTables hw.scan src p r hr
   obtain ⟨hk, hv⟩ := nextToken_G2 T.toTables src p r
   have h2 := hg.len_le
